@@ -31,7 +31,7 @@ static void on_abort(int sig)
     _exit(97);
 }
 static char const *opn[] = {"?", "catc", "catc_", "catn", "catn_", "cats", "cats_", "cat", "cat_", "catf", "utf_catc", "getc", "getc_", "getn", "getn_",
-                            "rtrim", "rtrim_", "ltrim", "ltrim_", "trim", "trim_", "setn", "setn_", "setm", "setm_", "exit", "cmpn", "cmps", "cmp", "utf_len"};
+                            "rtrim", "rtrim_", "ltrim", "ltrim_", "trim", "trim_", "setn", "setn_", "setm", "setm_", "exit", "cmpn", "cmps", "cmp", "utf_len", "acc"};
 static int parse_ints(char const *s, int *out, int max)
 {
     int n = 0;
@@ -181,7 +181,7 @@ static int run_edge(int const *v, int nv, FILE *fo)
 {
     int op = v[1], a1 = v[2], eret = v[3], term = v[4], mem = v[5], mem2 = v[6], n = v[7], n2 = v[8], nblk = v[9], nout = v[10];
     int const *s = v + 11, *s2 = s + n, *blk = s2 + n2, *out = blk + nblk;
-    if (nv != 11 + n + n2 + nblk + nout || op < 1 || op > 29 || n > MAXL || n2 > MAXL) { fprintf(stderr, "bad str edge\n"); return 3; }
+    if (nv != 11 + n + n2 + nblk + nout || op < 1 || op > 30 || n > MAXL || n2 > MAXL) { fprintf(stderr, "bad str edge\n"); return 3; }
     snprintf(cur_desc, sizeof(cur_desc), "\"op\":\"%s\",\"a1\":%d,\"n\":%d,\"mem\":%d,\"nblk\":%d", opn[op], a1, n, mem, nblk);
     op_cnt[op]++;
     a_str o, other;
@@ -221,7 +221,7 @@ static int run_edge(int const *v, int nv, FILE *fo)
     if (ok && (op == 11 || op == 12) && n > 0) { if (((ret % 256) + 256) % 256 != eret) { mismatch("return-value", op, a1); ok = 0; } }
     else if (ok && ret != eret) { mismatch("return-value", op, a1); ok = 0; }
     if (ok && term && after != 0) { mismatch("not-terminated", op, a1); ok = 0; }
-    if (ok && (op == 13 || op == 14 || op == 29 || (op == 25 && ex)))
+    if (ok && (op == 13 || op == 14 || op == 29 || op == 30 || (op == 25 && ex)))
     {
         if (ngot != nout) { mismatch(op == 25 ? "handed-over-string" : "popped-bytes", op, a1); ok = 0; }
         for (int i = 0; ok && i < nout; ++i)
@@ -294,7 +294,7 @@ int main(int argc, char **argv)
     if (fault_out) { fclose(fault_out); }
     printf("FAULTS {\"edges\":%ld,\"runs\":%ld}\n", n_fault_edges, n_fault_runs);
     printf("SUMMARY {\"edges\":%ld,\"events\":%ld,\"mismatch\":%ld,\"drift\":%ld,\"nontrivial\":%ld,\"ops\":[", n_edges, n_events, n_mismatch, n_drift, n_nontrivial);
-    for (int i = 0; i < 30; ++i) { printf(i ? ",%ld" : "%ld", op_cnt[i]); }
+    for (int i = 0; i < 31; ++i) { printf(i ? ",%ld" : "%ld", op_cnt[i]); }
     printf("]}\n");
     return 0;
 }
